@@ -98,7 +98,10 @@ func diffIPTables(a, b tables) string {
 						"iptables differs at %s:%s:RULES:%d:[options: %s]",
 						tName, cName, i, extra)
 				}
-				for k, v := range aPairs {
+				// Compare in fixed order, to always report the same one
+				// of multiple differences.
+				for _, k := range slices.Sorted(maps.Keys(aPairs)) {
+					v := aPairs[k]
 					if v2 := bPairs[k]; v2 != v {
 						return fmt.Sprintf(
 							"iptables differs at %s:%s:RULES:%d:%s:[%s<->%s]",
